@@ -48,7 +48,7 @@ def check(run):
     _pipelines(run, prog)
     _own_copy(run, prog, classes['RayTransferEmitter'])
     from ..cachekey import check_caches
-    check_caches(run, [m for k, m in prog.modules.items() if k.startswith('cherab.tools.raytransfer') and not k.endswith('#pxd')], 'C10-K')
+    check_caches(run, [m for k, m in prog.modules.items() if k.startswith('cherab.tools.raytransfer') and not k.endswith('#pxd')], 'C10-K', prog=prog)
 
 
 def _own_copy(run, prog, ci):
